@@ -32,3 +32,51 @@ package protocol
 //@ check bounds
 //@ loop 0 invariant -1 <= rangeindex && rangeindex < 64 && forall j in 0..rangeindex+1: w.Signature[j] == 0
 //@ ensures result <==> forall j in 0..64: w.Signature[j] == 0
+
+// ---- C07: no frame with more than MaxPayloadSize payload bytes is ever written ----
+//
+// Every frame that reaches a peer is the output of Frame.Encode handed to the
+// connection's io.Writer by FrameWriter.Write (census below; the peer package
+// writes only through FrameWriter). Encode succeeds only for payloads of at
+// most 16384 bytes and emits header || payload exactly; FrameReader/DecodeHeader
+// accept only such frames and return the same header fields and payload bytes.
+
+//@ func (*Frame).Encode
+//@ prop C07 C05
+//@ check bounds alloc
+//@ alloc-limit 16398
+//@ ensures len(f.Payload) > 16384 ==> err != nil
+//@ ensures err == nil ==> len(f.Payload) <= 16384 && len(result) == 14 + len(f.Payload)
+//@ ensures err == nil ==> result[0] == f.Type && result[1] == f.Flags && be32(result, 2) == len(f.Payload) && be64(result, 6) == f.StreamID
+//@ ensures err == nil ==> forall i in 0..len(f.Payload): result[14 + i] == f.Payload[i]
+
+//@ func DecodeHeader
+//@ prop C07 C05
+//@ check bounds
+//@ ensures err == nil ==> len(buf) >= 14 && frameType == buf[0] && flags == buf[1] && length == be32(buf, 2) && streamID == be64(buf, 6) && length <= 16384
+//@ ensures len(buf) >= 14 && be32(buf, 2) <= 16384 ==> err == nil
+
+//@ func Decode
+//@ prop C07 C05
+//@ check bounds alloc
+//@ alloc-limit 16384
+//@ ensures err == nil ==> result != nil && len(buf) >= 14 + be32(buf, 2) && be32(buf, 2) <= 16384
+//@ ensures err == nil ==> result.Type == buf[0] && result.Flags == buf[1] && result.StreamID == be64(buf, 6) && len(result.Payload) == be32(buf, 2)
+//@ ensures err == nil ==> forall i in 0..len(result.Payload): result.Payload[i] == buf[14 + i]
+//@ ensures len(buf) >= 14 && be32(buf, 2) <= 16384 && len(buf) >= 14 + be32(buf, 2) ==> err == nil
+
+//@ func (*FrameWriter).Write
+//@ prop C07
+//@ modifies *
+//@ after call Encode let enc = $ret0
+//@ after call Encode let encErr = $ret1
+//@ at call io.Writer.Write assert encErr == nil && $1 == enc && len(f.Payload) <= 16384
+
+//@ func (*FrameReader).Read
+//@ prop C07 C05
+//@ check bounds alloc
+//@ alloc-limit 16384
+//@ modifies *
+//@ ensures err == nil ==> result != nil && len(result.Payload) <= 16384
+
+//@ census[C07] io.Writer.Write in (*FrameWriter).Write
